@@ -576,22 +576,6 @@ func expandParameterOrResponse(input interface{}, resolver *schemaLoader, basePa
 		return nil
 	}
 
-	if sch.Ref.String() != "" {
-		rebasedRef, ern := NewRef(normalizeURI(sch.Ref.String(), basePath))
-		if ern != nil {
-			return ern
-		}
-
-		if resolver.isCircular(&rebasedRef, basePath, parentRefs...) {
-			// this is a circular $ref: stop expansion
-			if !resolver.options.AbsoluteCircularRef {
-				sch.Ref = denormalizeRef(&rebasedRef, resolver.context.basePath, resolver.context.rootID)
-			} else {
-				sch.Ref = rebasedRef
-			}
-		}
-	}
-
 	// $ref expansion or rebasing is performed by expandSchema below
 	if ref != nil {
 		*ref = Ref{}
